@@ -46,7 +46,7 @@ CdfPointwise == \A j \in 1..Len(Ev.Fs) : Abs(Ev.Fs[j][2] - Ev.F[Ev.Fs[j][1]]) <=
 \* the density integrates to one: inside the range (its own table) plus what lies outside
 Normalised == Abs(CumTrap(N + 1) + Ev.out - U) <= U \div 500
 \* the mode is a point of maximal density (table resolution: 1e-3 of the peak + 2 units)
-\* (Ev.mtol, parts per million of the peak: 1000 for the kernel estimator, whose mode is searched numerically; 2 for the unimodal model,
+\* (Ev.mtol, parts per million of the peak: 1000 for the kernel estimator, whose mode is searched numerically; 4 for the unimodal model,
 \* whose mode is a parameter of the fitted curve)
 \* Ev.Pl: the densities one standard deviation either side of the mode in 512 steps, relative to the density at the mode (2^26 = equal)
 ModeMaximal == /\ Ev.pm + 2 + (Ev.pm * Ev.mtol) \div 1000000 >= MaxP(N + 1)
